@@ -13,6 +13,8 @@ import os
 from dataclasses import dataclass, field
 from pathlib import Path
 
+from .threadflags import thread_flag_loops
+
 PKG = "pyrtcm"
 
 
@@ -101,6 +103,8 @@ class Repo:
                 raise AnalysisError(f"{p}: does not parse: {err}") from err
             name = p.stem
             _inline_handler_tuples(tree)
+            if os.environ.get("VERIF_NO_THREADING") != "1":
+                thread_flag_loops(tree)
             self.modules[name] = ModInfo(name, p, f"src/{PKG}/{p.name}", src, tree)
             for parent in ast.walk(tree):
                 for child in ast.iter_child_nodes(parent):
